@@ -20,6 +20,9 @@ func main() {
 	tier := fs.String("tier", "", "quick|thorough")
 	replay := fs.String("replay", "", "replay file")
 	fs.Parse(os.Args[2:])
+	if id == "selftest" {
+		os.Exit(checks.Selftest())
+	}
 	if id == "worker" {
 		os.Exit(checks.Worker(fs.Args()))
 	}
